@@ -8,6 +8,7 @@ pub struct CfgSet {
     pub cfgs: Vec<Value>,
     pub creators: Vec<usize>, // 1-based indices usable for create / open_or_create
     pub openers: Vec<usize>,  // 1-based indices usable for open
+    pub plain_opener: usize,  // requires nothing but the type of creators 1 and 2
 }
 
 pub fn cfg_set(pat: &str, small_nodes: bool) -> CfgSet {
@@ -48,5 +49,6 @@ pub fn cfg_set(pat: &str, small_nodes: bool) -> CfgSet {
         ],
         _ => panic!("unknown pattern {pat}"),
     };
-    CfgSet { cfgs, creators: vec![1, 2, 3], openers: vec![1, 2, 3, 4, 5] }
+    let plain_opener = if pat == "ev" { 3 } else { 4 };
+    CfgSet { cfgs, creators: vec![1, 2, 3], openers: vec![1, 2, 3, 4, 5], plain_opener }
 }
